@@ -65,8 +65,21 @@ def _nontrivial(prog):
     return any(gv.is_nontrivial_value(d) for d in _values_in(prog))
 
 
-def _strategy(tier):
-    return gp.program(tier, max_sites=3).map(lambda p: {"prog": p})
+@st.composite
+def _strategy(draw, tier):
+    prog = draw(gp.program(tier, max_sites=3))
+    case = {"prog": prog}
+    if draw(st.sampled_from([False, False, True])):
+        # surrounding file layout (the decoration of C03): non-ASCII text left of the call, `;`-joined
+        # sites, nested calls, decorators, tabs, CRLF, formatter-clean files
+        case["deco"] = {
+            "pre": [draw(st.sampled_from(["", 'u = "äöü🐍"; ', "t = 'é'; k = 1; "])) for _ in prog["sites"]],
+            "wrap": [draw(st.integers(0, 2)) for _ in prog["sites"]],
+            "join": draw(st.booleans()), "tabs": draw(st.booleans()), "crlf": draw(st.booleans()),
+            "clean": draw(st.sampled_from([False, False, True])), "decorator": draw(st.booleans()),
+            "strings": draw(st.booleans()),
+        }
+    return case
 
 
 def check_sites(prog, order, text, namespace, what, extra_sites=0):
@@ -95,8 +108,17 @@ def check_sites(prog, order, text, namespace, what, extra_sites=0):
 
 def check_inline(case):
     prog = case["prog"]
-    src, order = gp.render_program(prog)
-    ses = drivers.run_inline({"test_a.py": src}, {"create"})
+    if case.get("deco"):
+        from .c03 import decorate
+
+        try:
+            src, order = decorate({"prog": prog, "deco": case["deco"], "fmt": "black"})
+            ast.parse(src)
+        except Exception as e:
+            raise RuntimeError(f"harness: decorated module invalid: {e}")
+    else:
+        src, order = gp.render_program(prog)
+    ses = drivers.run_inline({"test_a.py": src.encode("utf-8")}, {"create"})
     if not ses.ok():
         err = ses.exec_error or ses.collect_error or ses.apply_error
         raise Violation("session-exception", f"{type(err).__name__}: {err}\n{src}")
@@ -118,6 +140,8 @@ def check_inline(case):
         if exc is not None:
             raise Violation("disabled-test-failed", f"{name}: {type(exc).__name__}: {exc}\n{text}")
     classes = [s["op"] for s in prog["sites"]] + ["place:" + s.get("place", "assert") for s in prog["sites"]]
+    if case.get("deco"):
+        classes.append("layout-noise")
     ks = set()
     for d in _values_in(prog):
         ks |= gv.kinds(d)
@@ -197,7 +221,7 @@ def check_pytest(case):
 
 
 ARMS = [
-    HypArm("create_inline", _strategy, check_inline, signature=signature,
+    HypArm("create_inline", lambda tier: _strategy(tier), check_inline, signature=signature,
            budget={"quick": 1500, "thorough": 100000}),
     HypArm("create_pytest", lambda tier: _pytest_case(tier), check_pytest, signature=signature,
            budget={"quick": 48, "thorough": 1500}, shrink=False),
